@@ -128,6 +128,70 @@ func C18_DecodeBytes() {
 	vf.Reach("valid")
 }
 
+// jsonContexts: a prefix and a suffix around the arbitrary bytes: the bytes are
+// scanned with a non-empty parse stack (array element, object value, object
+// key, nested containers, after a first element, after a literal).
+var jsonContexts = [][2]string{
+	{"[", "]"}, {"{\"a\":", "}"}, {"[[", "]]"}, {"[0,", "]"}, {"{", ":1}"}, {"[{\"k\":[", "]}]"},
+	{"[1", "]"}, {"[1.5", "]"}, {"[1e2", "]"}, {"[-", "]"}, {"[\"", "\"]"}, {"[tru", "]"}, {"{\"a\":1", "}"}, {" [ ", " ] "},
+}
+
+// C18_DecodeInContext: the same comparison with encoding/json.Valid for 1..3
+// (thorough: 4) arbitrary bytes placed inside each container context, plus
+// element-wise agreement of decoded numbers with strconv where the bytes are a
+// comma/space separated list of scalars.
+func C18_DecodeInContext() {
+	ctx := jsonContexts[vf.Choice("ctx", len(jsonContexts))]
+	maxN := 3
+	if Tier() > 0 {
+		maxN = 4
+	}
+	n := 1 + vf.Choice("n", maxN)
+	mid := vf.Bytes("data", n)
+	data := append(append([]byte(ctx[0]), mid...), ctx[1]...)
+	var got tengo.Object
+	var err error
+	res := vf.Guard(func() { got, err = tjson.Decode(append([]byte(nil), data...)) }, 3000000)
+	vf.Assert(res == 0, "json decode never panics or hangs (bytes inside "+ctx[0]+" "+ctx[1]+"): "+vf.LastGuard())
+	valid := gojson.Valid(data)
+	vf.Assert((err == nil) == valid, "decode fails exactly when encoding/json considers the text invalid (bytes inside "+ctx[0]+" "+ctx[1]+")")
+	if err != nil {
+		vf.Reach("ctx-invalid")
+		return
+	}
+	if ctx[0] == "[" {
+		// a flat array of scalars: every element against the reference reading
+		arr, ok := got.(*tengo.Array)
+		vf.Assert(ok, "a JSON array decodes to an array")
+		flat := true
+		for _, x := range mid {
+			if x == '[' || x == '{' || x == '"' {
+				flat = false
+			}
+		}
+		if flat {
+			var elems [][]byte
+			start := 0
+			for k := 0; k <= len(mid); k++ {
+				if k == len(mid) || mid[k] == ',' {
+					elems = append(elems, trimJSON(mid[start:k]))
+					start = k + 1
+				}
+			}
+			if len(elems) == 1 && len(elems[0]) == 0 {
+				elems = nil
+			}
+			vf.Assert(len(arr.Value) == len(elems), "a flat array has one element per comma-separated literal")
+			if len(arr.Value) == len(elems) {
+				for k, e := range elems {
+					expectScalar(e, arr.Value[k])
+				}
+			}
+		}
+	}
+	vf.Reach("ctx-valid")
+}
+
 // jsonValue builds a JSON-representable value: ints from a boundary set
 // (decimal rendering), floats from a boundary set, strings of symbolic bytes.
 func jsonValue(id string, depth int) tengo.Object {
